@@ -24,7 +24,7 @@ var c02 = core.Register(&core.Prop{
 	Shards: func(tier string) int { return pickTier(tier, 8, 16) },
 	Floors: func(c map[string]int64, tier string) []string {
 		var out []string
-		for _, k := range []string{"agree_accept", "agree_reject", "prog_cases", "triple_cases", "context_cases", "long_flat_cases"} {
+		for _, k := range []string{"agree_accept", "agree_reject", "prog_cases", "triple_cases", "context_cases", "long_flat_cases", "ladder_cases", "chain_cases", "stray_character_cases"} {
 			if c[k] == 0 {
 				out = append(out, "coverage floor: no "+k)
 			}
@@ -199,6 +199,66 @@ func runC02(w *core.W) {
 		}
 	}
 	w.ExhaustivePart("all 19^3 binary operator triples in 'a op b op c op d'")
+	// 2b. long chains: the whole ladder climbed (one operator per level, rising or falling) and then every pair of further
+	// operators; random chains of 5-16 operators - however many operators are pending, each binds by the ladder
+	levels := [][]string{{"||", "??"}, {"&&"}, {"|"}, {"^"}, {"&"}, {"==", "!=", "===", "!=="}, {"<", ">", "<=", ">="}, {"+", "-"}, {"*", "/", "%"}}
+	name := func(i int) string { return string(rune('a'+i%26)) + strings.Repeat("x", i/26) }
+	chain := func(opsSeq []string) string {
+		var sb strings.Builder
+		sb.WriteString(name(0))
+		for i, o := range opsSeq {
+			sb.WriteString(" " + o + " " + name(i+1))
+		}
+		return sb.String()
+	}
+	li := 0
+	r = w.RNG("ladders")
+	for variant := 0; variant < 6; variant++ {
+		var ladder []string
+		for _, lv := range levels {
+			ladder = append(ladder, lv[(variant+len(ladder))%len(lv)])
+		}
+		if variant%3 == 2 {
+			ladder = ladder[1:] // eight levels
+		}
+		falling := make([]string, len(ladder))
+		for i := range ladder {
+			falling[len(ladder)-1-i] = ladder[i]
+		}
+		for _, o1 := range ops {
+			for _, o2 := range ops {
+				li++
+				if !w.Mine(li) {
+					continue
+				}
+				run("ladder-rising", []byte(chain(append(append([]string{}, ladder...), o1, o2))), "", "ladder_cases")
+				run("ladder-falling", []byte(chain(append(append([]string{}, falling...), o1, o2))), "", "ladder_cases")
+				run("ladder-twice", []byte(chain(append(append(append([]string{}, ladder...), o1), append(append([]string{}, ladder...), o2)...))), "", "ladder_cases")
+			}
+		}
+	}
+	for i, n := 0, w.Pick(20000, 300000); i < n; i++ {
+		k := 5 + r.Intn(12)
+		seq := make([]string, k)
+		lv := r.Intn(len(levels))
+		for j := range seq {
+			// a random walk over the ladder: mostly one level up or down, sometimes anywhere
+			switch r.Intn(4) {
+			case 0:
+				lv = r.Intn(len(levels))
+			case 1:
+				if lv > 0 {
+					lv--
+				}
+			default:
+				if lv < len(levels)-1 {
+					lv++
+				}
+			}
+			seq[j] = levels[lv][r.Intn(len(levels[lv]))]
+		}
+		run("chain", []byte(chain(seq)), "", "chain_cases")
+	}
 	// 3. prefix x binary x postfix
 	pre := []string{"", "+", "-", "!", "!!", "~", "typeof ", "- -", "! !", "!!!", "-typeof "}
 	post := []string{"", ".k", "!.k", "(b)", "()", "(b...)", ".k.j", ".k(b)", "(b)(c)", "(b).k"}
@@ -265,6 +325,43 @@ func runC02(w *core.W) {
 		sep := gen.Layout(r, f, 1)
 		sep[k] = gen.BreakSeps[r.Intn(len(gen.BreakSeps))]
 		run("postfix-on-next-line", []byte(ref.JoinLexemes(f.Lex, sep)), "", "postfix_break_cases")
+	}
+	// 5c. one character that belongs to no token, set at a token boundary of a valid program in any layout (also with member
+	// names on the line after their dot): not derivable, wherever it stands
+	r = w.RNG("stray-character")
+	strays := []string{"#", "@", "`", "\\", "\x00", "\x7f", "\x1b", "{", "}", ";", "\u00a7", "\u20ac", "\u2022", "\xff", "\xc3"}
+	for i, n := 0, w.Pick(40000, 600000); i < n; i++ {
+		f := ref.Flatten(ref.Parenthesize(cfg.Node(r, 1+r.Intn(5))))
+		sep := gen.Layout(r, f, 1+r.Intn(3))
+		var memberOnNextLine []int
+		for j := 1; j < len(f.Lex); j++ {
+			if f.Lex[j-1] == "." || f.Lex[j-1] == "!." {
+				memberOnNextLine = append(memberOnNextLine, j)
+			}
+		}
+		k := r.Intn(len(f.Lex) + 1)
+		if len(memberOnNextLine) > 0 && r.Intn(2) == 0 {
+			// the member name on its own line, the stray character right behind it
+			j := memberOnNextLine[r.Intn(len(memberOnNextLine))]
+			sep[j] = gen.BreakSeps[r.Intn(len(gen.BreakSeps))]
+			k = j + 1
+		}
+		st := strays[r.Intn(len(strays))]
+		var sb strings.Builder
+		for j, l := range f.Lex {
+			if j == k {
+				sb.WriteString([]string{" ", "", "  "}[r.Intn(3)] + st)
+			}
+			sb.WriteString(sep[j])
+			if j == k && sep[j] == "" {
+				sb.WriteString(" ")
+			}
+			sb.WriteString(l)
+		}
+		if k == len(f.Lex) {
+			sb.WriteString([]string{" ", "", "\n"}[r.Intn(3)] + st)
+		}
+		run("stray-character", []byte(sb.String()), "", "stray_character_cases")
 	}
 	// 6. mutants of valid programs (near-miss inputs on the reject side)
 	r = w.RNG("prog-mut")
